@@ -358,7 +358,7 @@ const DLENS: [u64; 5] = [0, 1, 127, 128, 300];
 const MAXI: u64 = 6;
 const MAXT: u64 = 3;
 
-struct Exh { shards: Vec<Shard>, rr: usize, depth: usize, nodes: u64, queries: u64, full_to: usize }
+struct Exh { shards: Vec<Shard>, rr: usize, depth: usize, nodes: u64, queries: u64, full_to: usize, narrow_from: usize }
 
 fn cs_a() -> Cs { Cs { v: vec![1, 2, 3], l: vec![], vo: vec![], ln: vec![], al: false } }
 fn cs_b() -> Cs { Cs { v: vec![1, 2], l: vec![4], vo: vec![1, 3], ln: vec![5], al: true } }
@@ -485,6 +485,17 @@ impl Exh {
         if muts.iter().all(|m| !matches!(m, Op::TrigSnap)) { cands.push(Op::TrigSnap); }
         if muts.iter().all(|m| !matches!(m, Op::TrigLog(_))) { cands.push(Op::TrigLog(true)); }
         if muts.iter().all(|m| !matches!(m, Op::CommitToConf(..))) { cands.push(Op::CommitToConf(last, Some(cs_b()))); }
+        if muts.len() >= self.narrow_from {
+            // deep levels: keep one representative per kind and position class
+            cands.retain(|c| match c {
+                Op::Append(es) => es.len() == 1 || (es[0].index == last + 1 && es[0].term == es[1].term),
+                Op::Compact(i) => *i == first + 1 || *i == last || *i == last + 1 || *i == last + 2,
+                Op::ApplySnap(i, t, _) => (*i == lo0 && *t == 1) || (*i == last + 1 && *t == 3) || (*i == (first + last) / 2 && *t == 3),
+                Op::CommitTo(i) => *i == last || *i == first,
+                Op::SetCommit(_) | Op::SetHs(..) | Op::CommitToConf(..) => false,
+                _ => true,
+            });
+        }
         for op in cands {
             muts.push(op);
             self.dfs(init, muts);
@@ -663,6 +674,12 @@ fn edge_cases(sh: &mut Shard) -> u64 {
         vec![Op::ApplySnap(4, 2, cs_b()), Op::QSnap(9, 0), Op::TrigSnap, Op::QSnap(0, 0), Op::QSnap(0, 0)],
         // zero-size entries (index 0 can only be stored through a non-contiguous append)
         vec![Op::Append(vec![e(1, 0, 0), e(0, 0, 0), e(0, 0, 0), e(3, 1, 10), e(4, 1, 10)]), Op::QLast],
+        vec![Op::Append(vec![e(1, 0, 0), e(0, 0, 0), e(0, 0, 0), e(5, 1, 10)]), Op::Compact(2), Op::QFirst, Op::QLast,
+             Op::QEntries(0, 3, Some(1), false), Op::QEntries(0, 2, Some(0), false)],
+        // compact(last + 1) rewinds first/last to the snapshot point
+        vec![Op::Append(vec![e(1, 1, 0), e(2, 1, 0), e(3, 1, 0)]), Op::Compact(4), Op::QFirst, Op::QLast, Op::Dump,
+             Op::QTerm(3), Op::Append(vec![e(4, 1, 0)])],
+        vec![Op::Append(vec![e(1, 1, 0), e(2, 1, 0), e(3, 1, 0)]), Op::Compact(4), Op::Append(vec![e(1, 2, 0)]), Op::Dump],
     ];
     let mut n = 0;
     for (k, ops) in cases.iter().enumerate() {
@@ -691,7 +708,8 @@ pub fn main(args: &[String]) {
         let depth: usize = arg(args, "--depth", "3").parse().unwrap();
         let full_to: usize = arg(args, "--full-to", "2").parse().unwrap();
         let shards = (0..nsh).map(|k| Shard::create(&dir, "memstorage-exh", k)).collect();
-        let mut e = Exh { shards, rr: 0, depth, nodes: 0, queries: 0, full_to };
+        let narrow_from: usize = arg(args, "--narrow-from", "99").parse().unwrap();
+        let mut e = Exh { shards, rr: 0, depth, nodes: 0, queries: 0, full_to, narrow_from };
         e.dfs(&Init::New, &mut vec![]);
         println!("nodes={} queries={}", e.nodes, e.queries);
         for s in e.shards { total += s.finish(); }
